@@ -333,6 +333,15 @@ def check_C05(tier, seed, replay=None):
         for pre in (("state", "set", "x", 1), ("state", "inc", "x", 2)):
             trees.append(("seq", pre, (wrap, mv), ("pred", False, "eq", "y", 0), ("lit", (F.A,), False)))
             trees.append(("seq", pre, ("choice", mv, ("lit", (), False)), ("lit", (F.A,), False)))
+    # a sequence whose LEADING elements look harmless (matchers, predicates, an action or a labelled group) but change the store
+    # inside (a state block under the action / group / predicate operand / optional), then a later element fails, and the failure
+    # is absorbed by ? * + or a choice: the store is the one from before the sequence
+    for wrap in ("opt", "star", "plus"):
+        for st_ in (("state", "inc", "x", 1), ("state", "app", "cl", 2), ("state", "set", "y", 2), ("state", "del", "x", 0)):
+            inner = ("seq", ("lit", (F.A,), False), st_)
+            for lead in (("action", inner), ("label", ("action", inner)), ("label", inner), ("opt", inner), ("seq", ("and", ("lit", (F.A,), False)), ("action", inner)),
+                         ("action", ("action", inner)), ("choice", ("action", inner), ("lit", (F.B,), False))):
+                trees.append(("seq", ("state", "set", "x", 1), (wrap, ("seq", lead, ("lit", (F.B,), False))), ("pred", False, "eq", "x", 1), ("star", ("any",))))
     groups = F.groups_from_trees(trees)
     cfg = F.RandCfg(depth=4, maxrules=3, state=True, cloner=True, gstore=True, preds=True)
     groups += F.random_groups(seed, nrand, cfg, gi0=len(groups) + 1)
@@ -640,6 +649,19 @@ def check_C11(tier, seed, replay=None):
         g = F.lr_group(random.Random(seedy), len(groups) + 1)
         if 1 <= sum(1 for n in g.nodes if n["blk"]) <= maxblk + 1:
             groups.append(g)
+    # the same match reported by several rules: wrapper chains whose actions all start at one offset (R1 <- R2 {..} ; R2 <- R3 {..} ;
+    # R3 <- 'a'+ {..}), some with display names; with one message for all blocks the reports differ in the rule name only
+    from peg import Gram
+    for k_ in range(6):
+        g = Gram(len(groups) + 1)
+        leaf = g.action(g.un("plus", g.cls((F.A, F.B), (), False, False)))
+        mid = g.action(g.seq([g.label(g.ref(3)), g.un("opt", g.lit([F.NL]))])) if k_ % 2 else g.action(g.ref(3))
+        top_ = g.action(g.seq([g.label(g.ref(2)), g.un("star", g.any())])) if k_ % 3 else g.action(g.choice([g.seq([g.ref(2), g.lit([F.NL])]), g.ref(2)]))
+        g.rules = [top_, mid, leaf]
+        g.disp = [["", "", ""], ["d1", "", "d3"], ["", "d`2", ""], ["same", "same", ""], ["", "", "'x'"], ["d1", "d1", "d1"]][k_]
+        g.compute_args()
+        g.maydiverge = False
+        groups.append(g)
     lr_first = len(inputs)
     inputs += F.all_inputs([F.NN, F.PLUS, F.STAR_], 4) + [[F.NN, F.PLUS, F.NN, F.STAR_, F.NN, F.PLUS, F.NN], [F.NN, F.MINUS, F.NN, F.PLUS, F.NN, F.NN]]
     inputs += [[F.NN, a, F.NN, b, F.NN, 120] for a in (F.PLUS, F.MINUS, F.STAR_) for b in (F.PLUS, F.MINUS, F.STAR_)] + [[F.NN, a, F.NN, 120] for a in (F.PLUS, F.MINUS, F.STAR_)]
@@ -652,7 +674,8 @@ def check_C11(tier, seed, replay=None):
         for r in range(len(blks) + 1):
             for sub in itertools.combinations(blks, r):       # every subset of failing blocks
                 options.append(opt(errblks=list(sub), fname=rng.choice(["", "f", "dir/x.peg", "a%d b.peg", "100%.txt", "x:1:2 (3).peg"]),
-                                   via=rng.choice(["", "", "reader", "file"])))          # the contract is that of all three entry points
+                                   via=rng.choice(["", "", "reader", "file"]),          # the contract is that of all three entry points
+                                   samemsg=len(sub) >= 2 and rng.random() < 0.5))         # one message for all blocks: reported once per position AND rule
                 ois.append(len(options) - 1)
         for b in blks:                                          # every single block panics, contained or not
             for rec in (True, False):
@@ -1394,6 +1417,32 @@ def check_C19(tier, seed, replay=None):
             f.write(texts[g.gi])
         jobs.append((g, pth, []))
         jobs.append((g, pth, ["-optimize-parser"]))
+    # the same label bound several times in one scope, next to other labels, before a code block (the parameter list of the
+    # emitted method is derived from the labels in scope: whatever it is, it is a function of the text)
+    replab = []
+    for ri_ in range(40 if tier == "quick" else 300):
+        g = Gram(len(groups) + 12000 + ri_)
+        pool = ["k", "v", "sep", "w", "x"][: rng.randint(2, 5)]
+        items = []
+        for _ in range(rng.randint(3, 7)):
+            e = g.lit([F.A + rng.randint(0, 2)])
+            if rng.random() < 0.75:
+                e = g.label(e, rng.choice(pool))
+            if rng.random() < 0.2:
+                e = g.seq([g.label(g.lit([F.B]), rng.choice(pool)), g.pred(False, "true"), e]) if rng.random() < 0.5 else g.un("opt", g.action(g.label(e, rng.choice(pool)) if g.N(e)["k"] != "label" else e))
+            items.append(e)
+        g.rules = [g.action(g.seq(items))]
+        g.disp = [""]
+        g.dup_labels = True             # keep the repeated names (these grammars are only generated, never compiled)
+        g.compute_args()
+        replab.append(g)
+    for g in replab:
+        pth = os.path.join(d, "l%d.peg" % g.gi)
+        texts[g.gi] = pack_text([g])
+        with open(pth, "w") as f:
+            f.write(texts[g.gi])
+        jobs.append((g, pth, []))
+        jobs.append((g, pth, ["-optimize-parser", "-optimize-grammar", "-alternate-entrypoints", g.sname()]))
     for g in optg:
         pth = os.path.join(d, "o%d.peg" % g.gi)
         texts[g.gi] = pack_text([g])
@@ -1631,7 +1680,46 @@ def check_C15(tier, seed, replay=None):
         if nviol <= 25:
             run.violation(run.replay_path(d), "class %s input %s: with/without -optimize-basic-latin differ (%s)" % (
                 bytes(groups[d["gi"] - 1].N(groups[d["gi"] - 1].rules[0])["want"]).decode(), inputs[d["ii"] - 1], d["df"]))
-    cov = dict(programs=len(variants), disagreements_checked=npairs, evaluations=npairs, distinct_nontrivial=len(classes),
+    # classes that the grammar optimizer BUILDS (a choice of one-character literals becomes a class whose text is put together
+    # from the characters, unescaped) next to written classes with the same text: "^" / "$" and [^$], "a" / "-" / "f" and [a-f],
+    # "\\" / "n" and [\n], ...; whatever the table of a class is keyed by, each class decides like its general procedure
+    from peg import Gram
+    run_x = Run("C15", tier, seed)
+    coll = [([94, 36], "[^$]"), ([97, 45, 102], "[a-f]"), ([94, 97], "[^a]"), ([92, 110], "[\\n]"), ([94, 45, 122], "[^-z]"), ([48, 45, 57], "[0-9]"),
+            ([92, 93], "[\\]]"), ([94, 94], "[^^]"), ([65, 45, 90], "[A-Z]"), ([92, 112, 76], "[\\pL]"), ([94, 92, 110], "[^\\n]"), ([92, 120, 52, 49], "[\\x41]")]
+    xg = []
+    for order in (0, 1):
+        for chars_, txt_ in coll:
+            g = Gram(len(xg) + 1)
+            built = g.choice([g.lit([c_]) for c_ in chars_])
+            written = g.mk(k="cls", want=list(txt_.encode()))
+            g.rules = [built, written] if order == 0 else [written, built]
+            g.disp = ["", ""]
+            g.compute_args()
+            g.maydiverge = False
+            xg.append(g)
+    xopts = [opt(entry="@1"), opt(entry="@2")]
+    xpig = P.build_pigeon()
+    names_ = ",".join(g.rname(i + 1) for g in xg for i in range(2))
+    xvars = [P.Variant(i + 1, "x%d" % i, xg, fl + ["-alternate-entrypoints", names_]) for i, fl in enumerate(
+        [["-optimize-grammar"], ["-optimize-grammar", "-optimize-basic-latin"], ["-optimize-grammar", "-optimize-parser"], ["-optimize-grammar", "-optimize-parser", "-optimize-basic-latin"]])]
+
+    def xprep(v):
+        if not v.generate(xpig):
+            raise P.Inconclusive("pigeon rejected the pack of built/written classes: " + v.gen_err)
+        if not v.build():
+            raise P.Inconclusive("build failed: " + v.build_err)
+        return v.run(inputs, xopts, [[gx, ii, oi] for gx in range(len(xg)) for ii in range(len(inputs)) for oi in (0, 1)])
+    run_x.obs = P.parallel(xprep, xvars)
+    run_x.variants, run_x.groups, run_x.inputs, run_x.options = xvars, xg, inputs, xopts
+    dx, nx = pairwise(run_x, [(0, 1), (2, 3)], fields=("status", "ok", "end", "val", "errs"))
+    for d in dx:
+        nviol += 1
+        if nviol <= 25:
+            run.violation(run_x.replay_path(d), "a class built by -optimize-grammar next to a written class with the same text (%s): with/without -optimize-basic-latin differ (%s)" % (
+                xg[d["gi"] - 1].text().replace("\n", " ; "), d["df"]))
+    npairs += nx
+    cov = dict(programs=len(variants) + len(xvars), disagreements_checked=npairs, evaluations=npairs, distinct_nontrivial=len(classes) + len(xg),
                rule="character classes: every single member and every single range over the case-boundary alphabet {@ A Z [ ` a z { KELVIN LONG-S DOTTED-I} and every Unicode class of a list, in all four ^/i combinations (exhaustive), the witnesses of the repaired defect F15, and random classes with up to 3 members, 2 ranges, 2 Unicode classes; inputs: ALL 128 Basic Latin runes, 13 non-ASCII runes, 5 ill-formed byte strings, the empty input, with AllowInvalidUTF8 on/off; the parser generated with the flag must decide exactly like the one generated without it (also under -optimize-parser)",
                samples=[dict(cls=bytes(g.N(g.rules[0])["want"]).decode()) for g in groups[:: max(1, len(groups) // 8)][:8]],
                classes=len(classes), decisions_compared=npairs, violating=nviol, exhaustive=False)
@@ -1753,6 +1841,22 @@ def c04_groups(seed, tier):
         roots.append(g.mk(k="cls", want=list(txt.encode())))
     g.rules = [g.choice([g.ref(i + 2) for i in range(len(roots))])] + roots
     add(g)
+    nostate.append(g)
+    # (e) display names of every quoting with what Go's own string syntax treats specially: a back quote (inside double and single
+    # quotes), escapes, a percent sign, a NUL byte, a byte order mark, a non-ASCII letter, braces; the emitted rules table must hold
+    # the name whatever it contains
+    nasty = ['"a`b"', "'`'", '`raw \\n "q"`', '"tab\\tq\\"x"', '"100%d %s %%"', '"nul\x00byte"', '"bom\ufeffx"', '"\u00e9t\u00e9 {{.}}"', "'\\''", '"\\u00e9\\x41\\101"',
+             '"``"', '"a\\\\`b"']
+    g = Gram(len(groups) + 1)
+    roots = []
+    for i in range(len(nasty)):
+        alts = [g.action(g.lit([F.A]))]
+        if i + 1 < len(nasty):
+            alts = [g.seq([g.lit([120]), g.ref(i + 2)])] + alts
+        roots.append(g.choice(alts))
+    g.rules = roots
+    add(g)
+    g.disp = list(nasty)
     nostate.append(g)
     c04_groups.predstate = predstate          # a pack of its own: no state block outside a predicate in the whole grammar
     return groups, nostate, len(ucl)
@@ -2102,6 +2206,10 @@ def check_C13(tier, seed, replay=None):
     # known finding F32: -optimize-grammar inlines every rule without references wherever it is used, so on such a chain the
     # optimised grammar doubles with every rule: out of memory (a Go crash trace) instead of a parser or a diagnostic
     texts.append(("kf32", dag(34, b"@ / @")))
+    # known finding F39: the front-end is a recursive-descent parser without a depth limit: 30 000 nested parentheses (a 60 KB
+    # text) exhaust the Go stack (fatal error, a crash trace) instead of a parser or a diagnostic; 10 000 levels still pass
+    texts.append(("kf39", head + b"Deep <- " + b"(" * 30000 + b"'a'" + b")" * 30000 + b"\n"))
+    texts.append(("dag", head + b"Deep <- " + b"(" * 3000 + b"'a'" + b")" * 3000 + b"\n"))
     for v in lrtexts:
         texts.append(("leftrec", v))
     base_flags = ["-optimize-grammar", "-optimize-parser", "-optimize-basic-latin", "-support-left-recursion", "-nolint", "-cache", "-x", "-debug", "-no-recover"]
@@ -2113,7 +2221,7 @@ def check_C13(tier, seed, replay=None):
         pth = os.path.join(d, "t%d.peg" % i)
         with open(pth, "wb") as f:
             f.write(t)
-        nf = 1 if kind in ("bytes", "kf32") else (4 if tier == "quick" else 8)
+        nf = 1 if kind in ("bytes", "kf32", "kf39") else (4 if tier == "quick" else 8)
         for j in range(nf):
             if kind == "sweep":
                 fl = [["-optimize-basic-latin"], ["-optimize-basic-latin", "-optimize-parser"], ["-optimize-grammar", "-optimize-basic-latin"], [],
@@ -2125,6 +2233,8 @@ def check_C13(tier, seed, replay=None):
                       ["-x"], ["-support-left-recursion", "-optimize-parser"], ["-debug"], ["-no-recover"]][j % 8]
             elif kind == "kf32":
                 fl = ["-optimize-grammar"]
+            elif kind == "kf39":
+                fl = ["-x"]
             elif kind == "bytes":
                 fl = [] if i % 3 else ["-optimize-grammar"]
             elif j == 0:
@@ -2198,7 +2308,7 @@ def check_C13(tier, seed, replay=None):
         else:
             ok = "incomplete"
         return dict(k=k, rc=rc, diag=diag, out=ok, panic=diag == "panic", timeout=tmo, h=("-h" in fl or "-help" in fl), x="-x" in fl,
-                    o="-o" in fl, nargs=len(args), norecover="-no-recover" in fl), err[-600:], "out of memory" in err
+                    o="-o" in fl, nargs=len(args), norecover="-no-recover" in fl), err[-600:], "out of memory" in err, "stack overflow" in err[:4000]
     res = P.parallel(one, jobs, workers=16)
     # every complete output must be syntactically valid Go
     fm = P.sh(["gofmt", "-l", "-e", outdir], check=False, timeout=900)
@@ -2228,6 +2338,14 @@ def check_C13(tier, seed, replay=None):
     elif any(f["id"] == "F32" for f in findings.active("C13")):
         run.notes.append("known finding F32: its witness no longer fails on this tree (entry can be retired)")
     div = [dd for dd in div if dd not in hit32]
+    # known finding F39: its witness (and nothing else) may end in the stack-overflow crash
+    kf39 = {j[0] for j in jobs if j[1] == "kf39"}
+    hit39 = [dd for dd in div if dd["k"] in kf39 and res[dd["k"] - 1][0]["panic"] and (res[dd["k"] - 1][3] or res[dd["k"] - 1][2])]
+    if hit39:
+        run.known.append("F39: " + findings.what("F39"))
+    elif any(f["id"] == "F39" for f in findings.active("C13")):
+        run.notes.append("known finding F39: its witness no longer fails on this tree (entry can be retired)")
+    div = [dd for dd in div if dd not in hit39]
     for dd in div:
         nviol += 1
         if nviol <= 25:
@@ -2931,7 +3049,19 @@ def check_C20(tier, seed, replay=None):
         if inside:
             g = bootstrap_subset(g, rng)
         txt, exp = T.render_grammar(g, BootTape(rng) if inside else T.Tape(rng))
-        cases.append(dict(id=i + 1, text=list(txt), exp=EMPTY_AST))
+        cases.append(dict(id=len(cases) + 1, text=list(txt), exp=EMPTY_AST))
+        if inside and i % 3 == 0:
+            # the same text with some of its blanks removed: tokens glued together (a literal or class directly followed by an
+            # identifier, by another literal, by a parenthesis, ...).  Whatever the text then means, the two front-ends must agree.
+            sq = bytes(b for b in txt if not (b == 32 and rng.random() < 0.5))
+            if sq != txt:
+                cases.append(dict(id=len(cases) + 1, text=list(sq), exp=EMPTY_AST))
+    # tokens glued to a following identifier that starts with i (the ignore-case suffix is decided by the scanner)
+    for lit in ('"x"', "'x'", "`x`", "[0-9]", '"x"i', "[a]i"):
+        for nxt in ("in", "id1", "i", "i9", "if1", "n", "_i", "i_"):
+            for tail in ("", " 'z'"):
+                txt = ("A = %s%s%s\nin = 'a'\nid1 = 'b'\ni = 'c'\ni9 = 'd'\nif1 = 'e'\nn = 'f'\n_i = 'g'\ni_ = 'h'\n" % (lit, nxt, tail)).encode()
+                cases.append(dict(id=len(cases) + 1, text=list(txt), exp=EMPTY_AST))
     for root, _, files in os.walk(os.path.join(P.REPO, "grammar")):
         for fn in files:
             if fn.endswith(".peg"):
@@ -2960,6 +3090,8 @@ def check_C20(tier, seed, replay=None):
     for shift in range(4):
         for kind in range(3):
             cases.append(dict(id=len(cases) + 1, text=list(big_text(shift, kind)), exp=EMPTY_AST))
+    # the witness of known finding F40 (always the last case)
+    cases.append(dict(id=len(cases) + 1, text=list(b"A = 'a' { // {\n return nil, nil }\nB = 'b' { return \"}\", nil }\n"), exp=EMPTY_AST))
     ob = hook_astdump([dict(id=c["id"], text=c["text"], mode="bootstrap") for c in cases])
     op = hook_astdump([dict(id=c["id"], text=c["text"], mode="pigeon") for c in cases])
     obs = []
@@ -2968,6 +3100,28 @@ def check_C20(tier, seed, replay=None):
     div, tot = asteq(cases, obs, "pair")
     understood = sum(1 for o in obs if o["ok"])
     nviol = 0
+    # known finding F40: the bootstrap scanner finds the end of a code block by counting braces byte by byte, also inside the
+    # comments and string literals of the Go code; the pigeon front-end skips those.  A text in which some code block (as the
+    # pigeon front-end delimits it) is not balanced under raw counting is scanned differently by the bootstrap front-end;
+    # when the stray braces of several blocks happen to cancel out it accepts the text with other rules.
+    import findings
+
+    def raw_unbalanced(n):
+        if n.get("t") == "Code":
+            depth = 0
+            for b in n.get("val", [])[1:-1]:
+                depth += 1 if b == 123 else (-1 if b == 125 else 0)
+                if depth < 0:
+                    return True
+            return depth != 0
+        return any(raw_unbalanced(k) for k in n.get("kids", []))
+    wit40 = len(cases) - 1
+    hit40 = [dd for dd in div if raw_unbalanced(obs[dd["k"] - 1]["ast2"])]
+    if any(dd["k"] - 1 == wit40 for dd in hit40):
+        run.known.append("F40: " + findings.what("F40"))
+    elif any(f["id"] == "F40" for f in findings.active("C20")):
+        run.notes.append("known finding F40: its witness no longer fails on this tree (entry can be retired)")
+    div = [dd for dd in div if dd not in hit40]
     for dd in div:
         nviol += 1
         if nviol <= 25:
